@@ -51,10 +51,11 @@ Definition seq_arity (nl : netlist) : bool := forallb seq_arity_ok (nets nl).
 (* ---------------------------------------------------------------- copy_block *)
 
 (* transform.clone_wire, per class: which attributes the clone receives.
-     Const  -> Const(old.val, old.bitwidth, name)
-     others -> old.__class__(old.bitwidth, name=name)
-   A Register clone is built without reset_value (defect F2), so the clone's
-   reset_value is None: *)
+     Const    -> Const(old.val, old.bitwidth, name)
+     Register -> old.__class__(old.bitwidth, name=name, reset_value=old.reset_value)
+     others   -> old.__class__(old.bitwidth, name=name)
+   Before the repair of defect F2 the Register clone was built without
+   reset_value, so the clone's reset_value was None: *)
 Definition clone_kind_f2 (k : kind) : kind :=
   match k with
   | KReg _ => KReg None
@@ -65,11 +66,13 @@ Definition clone_kind_f2 (k : kind) : kind :=
 Definition clone_kind_spec (k : kind) : kind := k.
 
 (* ***  THE ONE SPOT THAT SAYS WHAT /repo DOES NOW  ***
-   `clone_kind_f2` while transform.clone_wire drops reset_value; when /repo is
-   repaired put `clone_kind_spec` here and swap the marked theorem in
-   Props/C11.v (instructions there).  The check's structural tie compares this
-   definition with the real copy_block on every run and says so when it is stale. *)
-Definition clone_kind : kind -> kind := clone_kind_f2.
+   `clone_kind_spec` now that transform.clone_wire passes reset_value (F2
+   repaired); it was `clone_kind_f2` before.  If the defect comes back, the
+   check's structural tie (real copy_block vs this definition, every run) breaks
+   and the search reports 'reset-value-dropped:copy_block'; to model the
+   defective code again put `clone_kind_f2` here and swap the marked theorem in
+   Props/C11.v for C11_copy_reset_refuted_of_f2's instance. *)
+Definition clone_kind : kind -> kind := clone_kind_spec.
 
 Definition map_kinds (ck : kind -> kind) (nl : netlist) : netlist :=
   mkNetlist (map (fun x => mkWire (wname x) (wwidth x) (ck (wkind x))) (wires nl))
